@@ -840,6 +840,7 @@ fn chan(id: u16, ordered: bool, rel: Rel, inband_by: Option<Side>) -> ChanSpec {
         inband_by,
         label: format!("c{id}"),
         protocol: String::new(),
+        late_ms: None,
     }
 }
 
